@@ -609,6 +609,8 @@ func runC18(c *Ctx, r *Report) {
 	linksOverwrittenOnlyWhenOpened(c, r, "R-C18.14")
 	r.Doc("R-C18.16", "every view Normalize returns — the pre-signed one included — carries the fields a codec's PreSign writes into (the sealed links live in the additional data: left out of the signed view they can be swapped in the block)")
 	preSignAdditionsAreInTheView(c, r, "R-C18.16")
+	r.Doc("R-C18.17", "the entry constructor stamps a constant format version on every path to the pre-sign and sign steps (only the current format's writer seals the links)")
+	writtenInTheCurrentFormat(c, r, "R-C18.17")
 	r.Doc("R-C18.12", "a fixed-size key or nonce buffer (an array, or a slice made with a constant length) is filled completely: the loop that copies into it covers every index (a byte left at zero makes keys that differ only there interchangeable and takes entropy out of the nonce)")
 	{
 		nfill := 0
